@@ -61,6 +61,22 @@ def handle (req : Json) : Except String Json := do
     pure (obj [("new", f (pows true ratMul 1 xq d)), ("old", f (pows false ratMul 1 xq d)),
                ("monos", f ((List.range (d + 1)).map (fun k => monos ratMul 1 k xq))),
                ("combs", ofList (ofList ratToJson) (multichoose d xq))])
+  | .ok (.str "shape") =>
+    -- {"op":"shape","norms":["asIs","wrapStr"…],"shape":{"str":"xa"}|{"list":[inter…]}|{"tuple":[inter…]}}
+    let norms ← (← arr (← field req "norms")).mapM (fun j => do
+      match (← str j) with
+      | "asIs" => pure Norm.asIs | "wrapStr" => pure Norm.wrapStr | "listOf" => pure Norm.listOf | "tupleOf" => pure Norm.tupleOf
+      | n => throw s!"unknown norm {n}")
+    let sj ← field req "shape"
+    let shape ← match sj.getObjVal? "str", sj.getObjVal? "list", sj.getObjVal? "tuple" with
+      | .ok v, _, _ => do pure (Shape.str (← str v).toList)
+      | _, .ok v, _ => do pure (Shape.list (← (← arr v).mapM parseInter))
+      | _, _, .ok v => do pure (Shape.tuple (← (← arr v).mapM parseInter))
+      | _, _, _ => throw "shape expected"
+    let interJ := fun (i : Inter) => match i with
+      | .num q => obj [("n", ratToJson q)]
+      | .term t => obj [("t", Json.str (String.ofList t))]
+    pure (obj [("terms", ofList interJ (normalise norms shape)), ("meaning", ofList interJ shape.meaning)])
   | .ok (.str "callers") =>
     -- {"op":"callers","kind":"learner","has_context":b,"features":[inter…]} | {"kind":"synthetic","nctx":n,"nact":n,"features":[inter…]}
     let fs ← (← arr (← field req "features")).mapM parseInter
